@@ -1,6 +1,6 @@
 (* C10 — register streaming: ordered, exactly-once, abort on error, stop on cancellation. *)
 From GV Require Import Base.Bytes Vedirect.Frame Vedirect.Port Vedirect.Driver.
-From GV Require Import Tables.ObsTypes Gen.Obs Api.Api Api.ApiFacts Api.Maps Api.MapsFacts.
+From GV Require Import Tables.ObsTypes Gen.Obs Api.Api Api.ApiFacts Api.Maps Api.MapsFacts Tables.RegFactory Api.MapsTables.
 
 (* For every register sequence, cancellation point, accumulator and driver state (any
    device script, any fault schedule): the values delivered are, in order and each once, a
@@ -60,3 +60,14 @@ Theorem C10_maps :
   (forall k, NoDup (map (fun x => r_name (fst x)) (deliv_kind k d)) -> rv_map k m = map entry (deliv_kind k d)).
 Proof. exact read_register_list_spec. Qed.
 Print Assumptions C10_maps.
+
+(* ... and every product's register list (all 65536 ids) has pairwise distinct names (C12), so
+   for ReadAllRegisters on any connected product each map is exactly the delivered prefix of
+   that kind: same names, same values, nothing else *)
+Theorem C10_maps_of_product_lists : forall id c ca s,
+  let rl := snd (obs_reglist id) in
+  let '(e, m, s') := read_register_list c rl ca s in
+  let '(e2, d, s2) := stream_register_list c all_handlers rl ca s in
+  (0 <= id < 65536)%Z -> forall k, rv_map k m = map entry (deliv_kind k d).
+Proof. exact maps_of_product_lists. Qed.
+Print Assumptions C10_maps_of_product_lists.
